@@ -187,6 +187,17 @@ def cls_renamed_item_replace_only_child(f):
             and 'TypeError' in json.dumps([f.observed, f.note], default=str))
 
 
+def _env_names_of(src):
+    """names of the environments of the tolerant parse of src (as strings)"""
+    import impl
+    try:
+        soup = impl.with_watchdog(5, impl.parse, src, 1, ())
+        import oracles_parse as op
+        return set(op.env_names(soup))
+    except BaseException:      # noqa
+        return set()
+
+
 def cls_bracket_env_name(f):
     """C08/C07: the only unexplained difference is a bracket group used as the
     name of \\begin / \\end, printed back with braces."""
@@ -195,9 +206,29 @@ def cls_bracket_env_name(f):
     if src is None or out is None:
         return False
     norm = re.sub(r'(\\(?:begin|end)[ \t]*\n?[ \t]*)\[([^\[\]{}\\$%]*)\]', r'\1{\2}', src)
-    if norm == src:
-        return False
     import oracles_parse as op
+    if norm == src:
+        # the bracket group used as a name may itself be unclosed or hold
+        # markup: write it with braces (the `[` alone, or with one of the `]`
+        # after it) and see whether the implementation then yields the very
+        # same output, which differs from that variant by closers only
+        if f.kind != 'tolerant-output-not-input-plus-closers':
+            return False
+        import impl
+        for m in re.finditer(r'\\(?:begin|end)[ \t]*\n?[ \t]*\[', src):
+            k = m.end() - 1
+            closes = [i for i, c in enumerate(src) if c == ']' and i > k][:4]
+            for j in [None] + closes:
+                v = src[:k] + '{' + (src[k + 1:] if j is None else src[k + 1:j] + '}' + src[j + 1:])
+                try:
+                    out_v = str(impl.with_watchdog(5, impl.parse, v, 1, ()))
+                except BaseException:      # noqa
+                    continue
+                names = set(re.findall(r'\\begin\{(.*?)\}(?=\\end|$)', out, re.S)) | \
+                    set(re.findall(r'\\begin\{([^{}]*)\}', out))
+                if out_v == out and op.only_closers_inserted(v, out, names | _env_names_of(v)) is None:
+                    return True
+        return False
     if f.kind == 'tolerant-output-not-input-plus-closers':
         names = set(re.findall(r'\\begin\{([^{}]*)\}', out))
         return op.only_closers_inserted(norm, out, names) is None
